@@ -26,7 +26,8 @@ THEOREMS = ['C10_every_function_once', 'C10_skip_zero_hides_exactly_no_hits',
             'C10_hits_roundtrip', 'C10_hits_nine_digits_exact', 'C10_hits_fallback_six_digits',
             'C10_f1_precision', 'C10_f2_precision', 'C10_g_precision_partial',
             'C10_sort', 'C10_sort_default_by_key', 'C10_summarize',
-            'C10_skipzero_summary_matches_details', 'C10_nonvacuous']
+            'C10_skipzero_summary_matches_details', 'C10_viewer_cli_every_function_once',
+            'C10_kernprof_view_every_function_once', 'C10_nonvacuous']
 LEVEL = 'proof'
 DRIVER = 'harness.drivers.c10'
 FINDING = 'C10-skipzero-summary-filters-on-time'
@@ -160,9 +161,9 @@ def gen_case(rnd, idx, tmpdir, malformed=False, shapes=None):
     files = {}
     used_shapes = set()
     cands = []     # (fn, start, name, lines)
-    exts = ['mod%d.py', 'pkg_%d.py', 'möd%d.py', 'Z%d.py']
+    exts = ['mod{k}.py', 'pkg_{k}.py', 'möd{k}.py', 'Z{k}.py', '100%_{k}.py', 'a%%b{k}.py', 'p%s_%d{k}.py', 'c%{k}.py']
     for k in range(rnd.randint(1, 3)):
-        fn = '%s/%s' % (d, rnd.choice(exts) % k)
+        fn = '%s/%s' % (d, rnd.choice(exts).replace('{k}', str(k)))
         if fn in files:
             continue
         text, used = gen_source(rnd, shapes)
@@ -200,12 +201,12 @@ def gen_case(rnd, idx, tmpdir, malformed=False, shapes=None):
     for _ in range(rnd.choice([0, 0, 0, 1, 1, 2])):
         if len(stats) >= 6:
             break
-        fn = '%s/%s' % (d, rnd.choice(['gone.py', 'nowhere/else.py', 'göne.py']))
+        fn = '%s/%s' % (d, rnd.choice(['gone.py', 'nowhere/else.py', 'göne.py', 'gone%.py', 'no%d/el%%se.py']))
         start = rnd.choice([1, 7, 120, 99998, 999990, 1234567])
         if any(s[0] == fn and s[1] == start for s in stats):
             continue
         ls = sorted(rnd.sample(range(start, start + 40), rnd.randint(0, 8)))
-        stats.append([fn, start, rnd.choice(['f', 'g', '<lambda>']), gen_timings(rnd, ls) if ls else []])
+        stats.append([fn, start, rnd.choice(['f', 'g', '<lambda>', 'f%s', '100%']), gen_timings(rnd, ls) if ls else []])
         kinds.append('missing')
     # equal total times (stability of sort=True), never-run functions
     if len(stats) >= 2 and rnd.random() < 0.3:
@@ -290,6 +291,96 @@ def history_cases(rnd, idx, tmpdir, nsteps=3):
         cases.append(dict(dir=d, files={fn: text}, cells={}, stats=[[fn, start, name, tm]], unit=unit, output_unit=ou,
                           combos=COMBOS, valid=True, shapes=['rewritten_file'], step=step))
     return cases
+
+
+# ----------------------------------------------------------------------------------------
+# end-to-end sessions: kernprof -l -v, then the viewer CLI on the .lprof from another directory
+ODD_CHARS = ['\x0c', '\x0b', '\x1c', '\x1d', '\x1e', '\x85', '\u2028', '\u2029']   # what str.splitlines splits at, Python does not
+SESSION_UNITS = [None, '1e-3', '1', '7e-5', '1e-9']
+
+
+def gen_session(rnd, idx, tmpdir):
+    """A script with @profile functions that kernprof runs for real.  Input dimensions: characters
+    that str.splitlines() treats as line ends but the Python compiler does not (page-break lines,
+    comments, string literals), a script that also imports itself (the same functions are then
+    recorded under a relative and an absolute spelling of one file), percent signs in the script
+    name, -u / -z on kernprof, -u / -z / -t / -m on the viewer, which runs in another directory."""
+    d = '%s/s%d' % (tmpdir, idx)
+    chars = [ODD_CHARS[idx % len(ODD_CHARS)]] + rnd.sample(ODD_CHARS, rnd.randint(0, 2))
+    if idx % 4 == 3:
+        chars = []
+    pick = (lambda: rnd.choice(chars)) if chars else (lambda: '')
+    modname = ['script', 'run_me', 'pro%file', 'a%%s_%d', 'main_é'][idx % 5]
+    self_import = idx % 2 == 0
+    nfun = rnd.randint(1, 3)
+    L = []
+    if rnd.random() < 0.5:
+        L.append('# -*- coding: utf-8 -*- header %s' % (pick() if rnd.random() < 0.5 else ''))
+    if chars and rnd.random() < 0.7:
+        L.append(chars[0] if chars[0] == '\x0c' else '# %s' % chars[0])   # a page-break line of its own
+    L += ['import sys', '']
+    for j in range(nfun):
+        if chars and rnd.random() < 0.4:
+            L.append('\x0c' if '\x0c' in chars else '# sep %s' % pick())
+        L += ['@profile', 'def fn%d(n):' % j, '    total = 0  # c%s' % (pick() if rnd.random() < 0.6 else '')]
+        L += ['    for i in range(n):', '        total += i * %d' % rnd.randint(1, 9)]
+        if rnd.random() < 0.6:
+            L.append("    s = 'lit %s é'" % pick())
+        if rnd.random() < 0.4:
+            L += ['    total = (total +', '             %d)  # m%s' % (rnd.randint(1, 9), pick())]
+        L += ['    return total', '']
+    L.append("if __name__ == '__main__':")
+    if self_import:
+        L.append('    __import__(%r)' % modname)
+    for j in range(nfun):
+        L.append('    fn%d(%d)' % (j, rnd.randint(1, 6)))
+    L.append('else:')
+    called = [j for j in range(nfun) if rnd.random() < 0.6]
+    L += ['    fn%d(%d)' % (j, rnd.randint(1, 4)) for j in called] or ['    pass']
+    text = '\n'.join(L) + '\n'
+    compile(text, modname, 'exec')
+    ku, vu = rnd.choice(SESSION_UNITS), rnd.choice(SESSION_UNITS)
+    kz = rnd.random() < 0.3
+    vz, vt, vm = rnd.random() < 0.3, rnd.random() < 0.5, rnd.random() < 0.6
+    return dict(dir=d, view_cwd=d + 'v', files={'%s/%s.py' % (d, modname): text}, script=modname + '.py',
+                kernprof_args=(['-u', ku] if ku else []) + (['-z'] if kz else []),
+                viewer_args=(['-u', vu] if vu else []) + [a for a, on in (('-z', vz), ('-t', vt), ('-m', vm)) if on],
+                k_unit=float(ku or '1e-6'), v_unit=float(vu or '1e-6'), k_combo=[kz, False, False, True],
+                v_combo=[vz, vt, vm, True], odd_chars=['U+%04X' % ord(c) for c in chars], self_import=self_import)
+
+
+def run_sessions(impl, sessions, tmp):
+    """-> (cases, outs, errors): every session gives two ordinary report cases (same stats = what
+    the .lprof holds): the text kernprof -v printed, and the text the viewer printed elsewhere."""
+    cases, outs, errors = [], [], []
+    if not sessions:
+        return cases, outs, errors
+    keys = ('dir', 'view_cwd', 'files', 'script', 'kernprof_args', 'viewer_args')
+    res = core.run_impl(impl, 'harness.drivers.c10s', dict(tmp=str(tmp), sessions=[{k: s[k] for k in keys} for s in sessions]))
+    if not str(res.get('kernprof_file', '')).startswith(str(impl)):
+        errors.append('kernprof did not come from the scratch build: %r' % res.get('kernprof_file'))
+    for s, r in zip(sessions, res['sessions']):
+        k = r['kernprof']
+        if r['stats'] is None or k['rc'] != 0 or 'Timer unit: ' not in k['out'] or r['viewer'] is None:
+            errors.append('kernprof -l -v did not produce a report for %s (rc=%s): %s' % (s['script'], k['rc'], (k['err'] or k['out'])[-300:]))
+            continue
+        if not r.get('types_ok'):
+            errors.append('the .lprof of %s holds non-int numbers' % s['script'])
+            continue
+        ktext = k['out'][k['out'].index('Timer unit: '):]
+        vtext = r['viewer']['out']
+        for which, text, unit_out, combo, envs, cwd in (('kernprof -l -v', ktext, s['k_unit'], s['k_combo'], r['env_kernprof'], s['dir']),
+                                                        ('python -m line_profiler', vtext, s['v_unit'], s['v_combo'], r['env_viewer'], s['view_cwd'])):
+            resolve = {fn: (fn if fn.startswith('/') else cwd + '/' + fn) for fn, _, _, _ in r['stats']}
+            cases.append(dict(dir=s['dir'], files=s['files'], cells={}, stats=r['stats'], unit=r['unit'], output_unit=unit_out,
+                              combos=[combo], valid=True, shapes=['session:' + which] + (['odd_line_chars'] if s['odd_chars'] else [])
+                              + (['two_spellings_of_one_file'] if s['self_import'] else []),
+                              resolve=resolve, session=s, report=which))
+            outs.append(dict(env=envs, texts=[dict(text=text, err=None if (which == 'kernprof -l -v' or r['viewer']['rc'] == 0)
+                                                   else 'viewer exit %s: %s' % (r['viewer']['rc'], r['viewer']['err'][-300:]))]))
+    for out in outs:
+        parse_outs(out)
+    return cases, outs, errors
 
 
 def gen_cases(tier, rnd, tmpdir):
@@ -552,9 +643,11 @@ def classify_any(case, combo, obs, file_info):
 
 def file_info_of(case):
     info = {}
+    resolve = case.get('resolve') or {}
     for fn, start, name, tm in case['stats']:
-        if fn in case['files']:
-            info[(fn, start)] = (True, file_lines(case['files'][fn])[start - 1:])
+        path = resolve.get(fn, fn)
+        if path in case['files']:
+            info[(fn, start)] = (True, file_lines(case['files'][path])[start - 1:])
         elif fn in case.get('cells', {}):
             info[(fn, start)] = (True, case['cells'][fn].splitlines()[start - 1:])
         else:
@@ -627,12 +720,12 @@ SHARD_HEADER = ('From Coq Require Import QArith.\n'
                 'Open Scope Z_scope.\n')
 
 
-def coq_combos(tier, k):
+def coq_combos(tier, k, n_single_from=10 ** 9):
     """Which of the 16 reports of case k are also compared inside Coq.  Thorough: all.  Quick: all
     for the canonical cases, else the everything-on report plus five that rotate with k, so that
     every option combination is compared inside Coq in every run; the python-side predicate sees
     all 16 reports of every case in both tiers."""
-    if tier != 'quick' or k in (0, 1, 4):      # the two regression cases and one ties case: all 16
+    if tier != 'quick' or k in (0, 1, 4) or k >= n_single_from:      # the two regression cases and one ties case: all 16
         return set(range(16))
     return {15} | {(5 * k + i) % 16 for i in range(5)}
 
@@ -650,13 +743,20 @@ def build_shards(cases, outs, per=6, tier='thorough'):
             defs.append(coq_case_defs(P, k, case, out['env']))
             for j, combo in enumerate(case['combos']):
                 o = out['parsed'][j]
-                if o is None or j not in coq_combos(tier, k):
+                if o is None or (len(case['combos']) > 1 and j not in coq_combos(tier, k)):
                     continue
                 opts = '(mkOpts %s)' % ' '.join(core.coq_bool(x) for x in combo)
                 args = '%s %s c%d_env c%d_fs %s c%d_st %s' % (
                     coq_q(case['unit']), core.coq_opt(coq_q(case['output_unit']) if case['output_unit'] is not None else None),
                     k, k, opts, k, coq_obs(P, o))
-                rows.append('(case_ok %s)' % args if case['valid'] else '(fst (case_ok %s), true)' % args)
+                if case.get('report') == 'python -m line_profiler':
+                    rows.append('(viewer_case_ok %s %s %s c%d_env c%d_fs c%d_st %s)' % (
+                        coq_q(case['unit']), coq_q(case['output_unit']), ' '.join(core.coq_bool(x) for x in combo[:3]), k, k, k, coq_obs(P, o)))
+                elif case.get('report') == 'kernprof -l -v':
+                    rows.append('(kernprof_case_ok %s %s %s c%d_env c%d_fs c%d_st %s)' % (
+                        coq_q(case['unit']), coq_q(case['output_unit']), core.coq_bool(combo[0]), k, k, k, coq_obs(P, o)))
+                else:
+                    rows.append('(case_ok %s)' % args if case['valid'] else '(fst (case_ok %s), true)' % args)
                 idx.append((k, j))
         body = '\n'.join(P.defs) + '\n' + '\n'.join(defs)
         body += 'Definition rows : list (bool * bool) := [\n' + ';\n'.join(rows) + '].\n'
@@ -673,16 +773,20 @@ def run_cases(impl, cases, tmp):
     for chunk in core.chunks(payload['cases'], 200):
         outs += core.run_impl(impl, DRIVER, dict(tmp=str(tmp), cases=chunk))['cases']
     for out in outs:
-        out['parsed'] = []
-        out['parse_err'] = []
-        for t in out['texts']:
-            try:
-                out['parsed'].append(None if t['err'] else parse_report(t['text']))
-                out['parse_err'].append(t['err'])
-            except (Unparseable, IndexError) as e:
-                out['parsed'].append(None)
-                out['parse_err'].append('unparseable: %s' % e)
+        parse_outs(out)
     return outs
+
+
+def parse_outs(out):
+    out['parsed'] = []
+    out['parse_err'] = []
+    for t in out['texts']:
+        try:
+            out['parsed'].append(None if t['err'] else parse_report(t['text']))
+            out['parse_err'].append(t['err'])
+        except (Unparseable, IndexError) as e:
+            out['parsed'].append(None)
+            out['parse_err'].append('unparseable: %s' % e)
 
 
 def spec_failures(cases, outs):
@@ -707,6 +811,8 @@ def slim(case, combo):
     c = {k: case.get(k) for k in ('dir', 'files', 'cells', 'stats', 'unit', 'output_unit', 'valid', 'step')}
     if case.get('step'):
         c['history'] = case['history']
+    if case.get('session'):
+        c['session'], c['report'], c['resolve'] = case['session'], case['report'], case['resolve']
     c['combos'] = [list(combo)]
     c['options'] = dict(zip(['stripzeros', 'sort', 'summarize', 'details'], combo))
     return c
@@ -721,11 +827,17 @@ def run(tier, seed):
     tmp.mkdir(parents=True, exist_ok=True)
     cases = gen_cases(tier, rnd, str(tmp))
     outs = run_cases(impl, cases, tmp)
+    sessions = [gen_session(rnd, i, str(tmp)) for i in range(8 if tier == 'quick' else 64)]
+    s_cases, s_outs, s_errors = run_sessions(impl, sessions, tmp)
+    cases, outs = cases + s_cases, outs + s_outs
+    res.infra_errors += s_errors
 
     def search(budget):
         r2 = core.rng(seed + 1, PROP)
         c2 = gen_cases('thorough' if budget == 'thorough' else 'quick', r2, str(tmp))
         o2 = run_cases(impl, c2, tmp)
+        sc, so, _ = run_sessions(impl, [gen_session(r2, i, str(tmp)) for i in range(16)], tmp)
+        c2, o2 = c2 + sc, o2 + so
         for f in spec_failures(c2, o2):
             if f['finding'] is None:
                 f['why'] += ' (search)'
@@ -803,16 +915,21 @@ def run(tier, seed):
              'valid stats with at least one recorded line and details or summarize on, distinct by (stats, units, options)',
         exhaustive=True,
         exhaustive_scope='all 16 (stripzeros, sort, summarize, details) combinations for every generated stats dict',
-        stats_dicts=len(cases), reports_after_a_file_rewrite=16 * sum(1 for c in cases if c.get('step')),
+        stats_dicts=len(cases), end_to_end_sessions=len(sessions), end_to_end_reports=len(s_cases),
+        sessions_with_two_spellings_of_one_file=sum(1 for x in sessions if x['self_import']),
+        sessions_odd_line_chars=sorted({c for x in sessions for c in x['odd_chars']}),
+        names_with_percent_sign=sum(1 for c in cases for fn, _, nm, _ in c['stats'] if '%' in fn or '%' in nm),
+        reports_after_a_file_rewrite=16 * sum(1 for c in cases if c.get('step')),
         valid_stats=sum(c['valid'] for c in cases), malformed_stats=sum(not c['valid'] for c in cases),
         functions_found=n_found, functions_missing_file=n_missing, functions_in_ipython_cells=n_cell, functions_without_hits=n_strip_hidden,
         functions_hits_but_zero_time=n_zero_time_fn, magnitudes=mag_hist, shapes=shape_hist,
         units=sorted({c['unit'] for c in cases}), output_units=sorted({str(c['output_unit']) for c in cases}),
         shard_wall_s=round(t_sh, 1),
         samples=[dict(stats=cases[i]['stats'], unit=cases[i]['unit'], output_unit=cases[i]['output_unit'],
-                      options=cases[i]['combos'][15], text=outs[i]['texts'][15]['text'][:1500]) for i in sample_idx],
-        hypothesis_holds_on=dict(unique_linenos_and_lines_in_code_object=sum(c['valid'] for c in cases) * 16,
-                                 outside_hypothesis_model_only=sum(not c['valid'] for c in cases) * 16),
+                      options=cases[i]['combos'][-1], report=cases[i].get('report', 'show_text'),
+                      text=outs[i]['texts'][-1]['text'][:1500]) for i in sample_idx],
+        hypothesis_holds_on=dict(unique_linenos_and_lines_in_code_object=sum(len(c['combos']) for c in cases if c['valid']),
+                                 outside_hypothesis_model_only=sum(len(c['combos']) for c in cases if not c['valid'])),
         trusted_base_extra=[
             'hand model of show_text/show_func (Report/Layout.v) and of the float arithmetic and %d/%f/%g conversions '
             '(Report/Cells.v), tied by correspondence only: whole text compared line by line inside Coq on every run',
@@ -842,6 +959,14 @@ def replay(path):
     new = str(tmp / 'replay')
     case = json.loads(json.dumps(case).replace(json.dumps(old)[1:-1], json.dumps(new)[1:-1]))
     case.setdefault('valid', True)
+    if case.get('session'):
+        sc, so, errs = run_sessions(impl, [case['session']], tmp)
+        pick = [(c, o) for c, o in zip(sc, so) if c['report'] == case['report']]
+        fails = spec_failures([c for c, o in pick], [o for c, o in pick]) if pick else [dict(why='; '.join(errs), finding=None)]
+        print(json.dumps(dict(report=case['report'], session=case['session']['script'], args=[case['session']['kernprof_args'], case['session']['viewer_args']],
+                              text=pick[0][1]['texts'][0]['text'] if pick else None, holds=not fails,
+                              why=[f['why'] for f in fails]), indent=1))
+        return 0 if not fails else 1
     # a multi-step case: the earlier reports of its history run first, in the same driver process
     before = [dict(p, combos=case['combos'], valid=True) for p in case.get('history') or []]
     outs = run_cases(impl, before + [case], tmp)[len(before):]
